@@ -177,6 +177,16 @@ namespace logmessage {
             [[nodiscard]] std::string formatMessage() const override;
         };
 
+        class RecursiveMacro : public PreprocBase {
+            static const loglevel level = loglevel::error;
+            static const size_t errorCode = 10014;
+            std::string macroname;
+        public:
+            RecursiveMacro(LogLocationInfo loc, std::string macroname) :
+                PreprocBase(level, errorCode, std::move(loc)), macroname(macroname) {}
+            [[nodiscard]] std::string formatMessage() const override;
+        };
+
         class UnexpectedIfdef : public PreprocBase {
             static const loglevel level = loglevel::warning;
             static const size_t errorCode = 10007;
